@@ -1,6 +1,7 @@
 package c05
 
 import (
+	"net"
 	"runtime"
 	"strconv"
 	"strings"
@@ -102,19 +103,24 @@ type hconn struct {
 	pushCalls, expW          int32 // pushes issued by the front; writes expected from the write loop
 	rExited                  bool  // the read goroutine is known to be gone
 	clientClosed             bool
+
+	tcp    bool     // OTcp scenario: real socket, no in-memory connection, nothing held
+	client net.Conn // its client end
+	tcpEOF int32    // the client end saw the server close
 }
 
 type world struct {
-	conns map[int64]*hconn
-	order []int64
-	sch   *sche.Sche
-	cs    *impls.ClientSessions
-	simpl *pomelo.SessionsImpl
-	hlog  []any
-	now   int64
-	hang  bool
-	enc   *codec.PomeloPacketEncoder
-	menc  *message.MessagesEncoder
+	conns  map[int64]*hconn
+	order  []int64
+	sch    *sche.Sche
+	cs     *impls.ClientSessions
+	simpl  *pomelo.SessionsImpl
+	hlog   []any
+	now    int64
+	hang   bool
+	enc    *codec.PomeloPacketEncoder
+	menc   *message.MessagesEncoder
+	tcpNew chan *hconn
 }
 
 // ---- recording ISessionsHandler ----
@@ -207,7 +213,7 @@ func (w *world) stable() bool {
 	parked, unresolved := 0, 0
 	for _, t := range w.order {
 		k := w.conns[t]
-		if k.rExited {
+		if k.rExited || k.tcp {
 			continue
 		}
 		k.sc.mu.Lock()
@@ -226,7 +232,7 @@ func (w *world) stable() bool {
 		}
 		for _, t := range w.order {
 			k := w.conns[t]
-			if k.rExited {
+			if k.rExited || k.tcp {
 				continue
 			}
 			k.sc.mu.Lock()
@@ -240,7 +246,7 @@ func (w *world) stable() bool {
 	}
 	for _, t := range w.order {
 		k := w.conns[t]
-		if atomic.LoadInt32(&k.closeCb) > 0 {
+		if atomic.LoadInt32(&k.closeCb) > 0 || k.tcp {
 			continue
 		}
 		k.sc.mu.Lock()
@@ -446,6 +452,9 @@ func (w *world) exec(o hx.T) {
 	case "ORealTicker":
 		w.realTicker(o.Int(0))
 		return
+	case "OTcp":
+		w.tcp(o.Int(0), o.Int(1))
+		return
 	case "ORace", "ORaceRel":
 		subs := hx.Terms(o.Args[len(o.Args)-1])
 		if o.Name == "ORaceRel" {
@@ -515,7 +524,7 @@ func (w *world) observe() (fins []any, alive int64) {
 		for _, t := range w.order {
 			k := w.conns[t]
 			if atomic.LoadInt32(&k.closeCb) > 0 {
-				if k.dec.isHeld() {
+				if !k.tcp && k.dec.isHeld() {
 					n++
 				}
 			} else {
@@ -532,6 +541,14 @@ func (w *world) observe() (fins []any, alive int64) {
 	alive = int64(last.total())
 	for _, t := range w.order {
 		k := w.conns[t]
+		if k.tcp {
+			// conn.Close() calls cannot be counted on a real socket: what IS measured is that
+			// the peer saw the connection close
+			n := int64(atomic.LoadInt32(&k.closeCb))
+			fins = append(fins, hx.C("CFin", t, n, n, int64(atomic.LoadInt32(&k.pushCalls)), int64(0),
+				atomic.LoadInt32(&k.tcpEOF) == 1 && n > 0))
+			continue
+		}
 		k.sc.mu.Lock()
 		fins = append(fins, hx.C("CFin", t, int64(atomic.LoadInt32(&k.closeCb)), int64(k.sc.closeCalls),
 			int64(atomic.LoadInt32(&k.pushCalls)), int64(k.sc.sentPush), k.sc.peerEOF))
@@ -544,12 +561,19 @@ func (w *world) teardown() (clean bool) {
 	for _, t := range w.order {
 		k := w.conns[t]
 		k.sess.Close()
+		if k.tcp {
+			k.client.Close()
+			tcpImps.Delete(pi.IClientSession(k.sess))
+			continue
+		}
 		k.sc.clientClose()
 	}
 	deadline := time.Now().Add(watchdog)
 	for {
 		for _, t := range w.order {
-			w.conns[t].dec.free()
+			if !w.conns[t].tcp {
+				w.conns[t].dec.free()
+			}
 		}
 		for w.frontOne() {
 		}
@@ -569,6 +593,11 @@ func (w *world) teardown() (clean bool) {
 // Exec runs one fault sequence on fresh real objects.
 // obs = Obs hlog [CFin ...] alive hang leak
 func Exec(ops []hx.T) (obs any, nontrivial bool) {
+	for _, o := range ops {
+		if o.Name == "OTcp" {
+			startTcp() // the acceptor's own goroutines live for the whole process
+		}
+	}
 	base := runtime.NumGoroutine()
 	w := newWorld()
 	for _, o := range ops {
